@@ -291,6 +291,22 @@ def logfloor(ctx, R="R-C02-logfloor"):
                           "a feature value is passed to log without the LOG_FLOOR_VALUE floor: %s" % astq.text(c)[:120])
                 pm = pm or astq.parents(f)
                 guards = [astq.text(a.test) for a in astq.ancestors(pm, c) if isinstance(a, ast.If)]
-                ctx.check(any(("_log" in g) or ("use_log" in g) for g in guards), R, f, c, "the log is taken only under use_log",
+                textual = any(("_log" in g) or ("use_log" in g) for g in guards)
+                if not textual:
+                    # not under an `if use_log:` - decide on the path condition (early returns, helper predicates)
+                    from ..symeval import SymEval
+                    from .. import scenario as SC
+                    try:
+                        ev = SymEval(prog, f).run()
+                        g = ev.guard_of(astq.enclosing_stmt(pm, c))
+                        off = SC.transform(g, lambda x: S.FALSE if (x.op == "sym" and x.args[0] in ("use_log", "self._log", "self.use_log")) else None)
+                        decided = off.is_const
+                        textual = decided and not S.truthy(off)
+                    except Exception:
+                        decided = False
+                    if not decided:
+                        ctx.error(R, "cannot decide whether the log at %s is taken only under use_log (path condition %s)" % (f.loc(c), guards))
+                        continue
+                ctx.check(textual, R, f, c, "the log is taken only under use_log",
                           "log is not guarded by the use_log flag (guards: %s)" % guards)
     ctx.floor(R + "/sites", n, 4)
